@@ -89,6 +89,9 @@ func VerifC03_PHYFOpts(mt, fpMode, n int) {
 	if fpMode == 2 {
 		nFRM = 3
 	}
+	if fpMode == 3 { // FPort > 0 with an empty FRMPayload
+		fpMode = 2
+	}
 	d := newSpecData(c03MType(mt), n, fpMode, nFRM)
 	key := verifNondetKey("key")
 	p := d.phy()
